@@ -19,6 +19,7 @@ NOISES = {
     'Y': (0.0, 1.0, 0.0),
     'Z': (0.0, 0.0, 1.0),
     'Zbias': (1 / 22, 1 / 22, 10 / 11),
+    'XZmix': (0.3, 0.1, 0.6),      # at p = 0.7 the flip marginals are 0.28 and 0.49: below 1/2 at a rate above 1/2
 }
 
 
